@@ -173,6 +173,15 @@ func (m *c04Mon) Step(w *sessmc.World, e *sessmc.Event, obs []sessmc.Obs) (rule,
 	if !m.active {
 		return "", ""
 	}
+	// a kept message that has been handed to the callbacks is delivered, whatever it does to the expected number
+	// (a gap fill whose NewSeqNo equals its own number advances nothing)
+	if !(isIn && q > t0) {
+		for _, o := range obs {
+			if (o.K == "FromApp" || o.K == "FromAdmin") && m.kept[o.Seq] {
+				delete(m.kept, o.Seq)
+			}
+		}
+	}
 	T := w.T()
 	if !loggedOnState(st) {
 		m.active = false // logout/disconnect ends the episode without obligations
@@ -250,6 +259,8 @@ func c04Alphabet() []*sessmc.Event {
 		a = append(a, sessmc.EvIn("D", k, false)) // live above the gap (also duplicates of kept ones)
 	}
 	a = append(a, sessmc.EvIn("0", 2, false), sessmc.EvSeqReset(2, 2, "Y", true))
+	// early gap fills whose NewSeqNo does not move past their own number (a kept message that advances nothing)
+	a = append(a, sessmc.EvSeqReset(1, 0, "Y", false), sessmc.EvSeqReset(2, 0, "Y", true))
 	a = append(a, sessmc.EvTimeout(quickfix.VerifPeerTimeout), sessmc.EvTimeout(quickfix.VerifNeedHeartbeat), sessmc.EvFlush())
 	return a
 }
